@@ -12,9 +12,10 @@ import traceback
 from . import lean
 
 ROOT = lean.ROOT
-EVID = os.path.join(ROOT, 'evidence')
+REPO = os.environ.get('EAO_REPO', '/repo')
+EVID = os.path.join(ROOT, 'evidence') if REPO == '/repo' else os.path.join(ROOT, 'work', 'evidence_' + os.path.basename(REPO.rstrip('/')))
 CORPUS = os.path.join(ROOT, 'corpus')
-WORK = os.path.join(ROOT, 'work')       # scratch: replay files of this run (git-ignored)
+WORK = os.path.join(ROOT, 'work') if REPO == '/repo' else os.path.join(ROOT, 'work', 'wt_' + os.path.basename(REPO.rstrip('/')))      # scratch: replay files of this run (git-ignored)
 KNOWN = os.path.join(ROOT, 'known_findings.json')
 
 TRUSTED_BASE = [
@@ -37,7 +38,7 @@ _mod = None
 
 def _init(modname):
     global _drv, _mod
-    sys.path.insert(0, '/repo')
+    sys.path.insert(0, os.environ.get('EAO_REPO', '/repo'))
     _mod = importlib.import_module(modname)
     try:
         _drv = lean.Driver()
